@@ -168,6 +168,13 @@ func (ma *ModAnalysis) AllocFields(fn *ssa.Function) ([]string, bool) {
 
 // LoopAllocOnly: variables the loop writes only at freshly allocated references.
 func (ma *ModAnalysis) LoopAllocOnly(fr *Frame, li *loopInfo) map[string]bool {
+	freshScope = func(ins ssa.Instruction) bool {
+		if ins.Parent() != fr.fn {
+			return true // callee-internal allocation: fresh for the callee's own summary
+		}
+		return ins.Block() != nil && li.body[ins.Block().Index]
+	}
+	defer func() { freshScope = nil }()
 	mi := newModInfo()
 	for _, b := range fr.fn.Blocks {
 		if !li.body[b.Index] {
@@ -188,6 +195,13 @@ func (ma *ModAnalysis) LoopAllocOnly(fr *Frame, li *loopInfo) map[string]bool {
 }
 
 func (ma *ModAnalysis) LoopMods(fr *Frame, li *loopInfo) ([]string, bool) {
+	freshScope = func(ins ssa.Instruction) bool {
+		if ins.Parent() != fr.fn {
+			return true // callee-internal allocation: fresh for the callee's own summary
+		}
+		return ins.Block() != nil && li.body[ins.Block().Index]
+	}
+	defer func() { freshScope = nil }()
 	mi := newModInfo()
 	for _, b := range fr.fn.Blocks {
 		if !li.body[b.Index] {
@@ -365,16 +379,16 @@ func baseParam(fn *ssa.Function, addr ssa.Value) (int, bool) {
 func baseAlloc(addr ssa.Value) (*ssa.Alloc, bool) {
 	switch a := addr.(type) {
 	case *ssa.FieldAddr:
-		if al, ok := a.X.(*ssa.Alloc); ok {
+		if isFreshValue(a.X, 0) {
+			al, _ := a.X.(*ssa.Alloc)
 			return al, true
 		}
-		if isFreshValue(a.X, 0) {
-			return nil, true
-		}
 	case *ssa.Alloc:
-		return a, true
+		if isFreshValue(a, 0) {
+			return a, true
+		}
 	case *ssa.IndexAddr:
-		if al, ok := a.X.(*ssa.Alloc); ok {
+		if al, ok := a.X.(*ssa.Alloc); ok && isFreshValue(al, 0) {
 			return al, true
 		}
 	}
@@ -383,7 +397,16 @@ func baseAlloc(addr ssa.Value) (*ssa.Alloc, bool) {
 
 // isFreshValue: the value is an object allocated during the current call: an Alloc, or the result of a
 // constructor-like function all of whose returns yield a fresh allocation.
+// freshScope, when set, restricts "fresh" to values created inside the loop body being summarised:
+// an object allocated before the loop is an old object from the loop's point of view.
+var freshScope func(ins ssa.Instruction) bool
+
 func isFreshValue(v ssa.Value, depth int) bool {
+	if depth == 0 && freshScope != nil {
+		if ins, ok := v.(ssa.Instruction); ok && !freshScope(ins) {
+			return false
+		}
+	}
 	switch x := v.(type) {
 	case *ssa.Alloc:
 		return true
@@ -712,6 +735,13 @@ func (ma *ModAnalysis) objTerm(fr *Frame, li *loopInfo, v ssa.Value, modVars map
 
 // LoopObjMods refines LoopMods: per modified variable, either the whole variable or a list of object terms.
 func (ma *ModAnalysis) LoopObjMods(fr *Frame, li *loopInfo, vars []string) map[string]*loopMod {
+	freshScope = func(ins ssa.Instruction) bool {
+		if ins.Parent() != fr.fn {
+			return true // callee-internal allocation: fresh for the callee's own summary
+		}
+		return ins.Block() != nil && li.body[ins.Block().Index]
+	}
+	defer func() { freshScope = nil }()
 	ex := ma.ex
 	modVars := map[string]bool{}
 	for _, v := range vars {
